@@ -46,9 +46,15 @@ func apps() []app {
 		{"zip", "list", func(v, lit *aspgen.Val) []*aspgen.Stmt { return r(E(Call("zip", E(lit), E(v)))) }},
 		{"min", "list", func(v, _ *aspgen.Val) []*aspgen.Stmt { return r(E(Call("min", E(v)))) }},
 		{"max", "list", func(v, _ *aspgen.Val) []*aspgen.Stmt { return r(E(Call("max", E(v)))) }},
-		{"map", "list", func(v, _ *aspgen.Val) []*aspgen.Stmt { return append([]*aspgen.Stmt{fid}, r(E(Call("map", IdE("fid"), E(v))))...) }},
-		{"filter", "list", func(v, _ *aspgen.Val) []*aspgen.Stmt { return append([]*aspgen.Stmt{f1}, r(E(Call("filter", IdE("f1"), E(v))))...) }},
-		{"reduce", "list", func(v, _ *aspgen.Val) []*aspgen.Stmt { return append([]*aspgen.Stmt{f2}, r(E(Call("reduce", IdE("f2"), E(v))))...) }},
+		{"map", "list", func(v, _ *aspgen.Val) []*aspgen.Stmt {
+			return append([]*aspgen.Stmt{fid}, r(E(Call("map", IdE("fid"), E(v))))...)
+		}},
+		{"filter", "list", func(v, _ *aspgen.Val) []*aspgen.Stmt {
+			return append([]*aspgen.Stmt{f1}, r(E(Call("filter", IdE("f1"), E(v))))...)
+		}},
+		{"reduce", "list", func(v, _ *aspgen.Val) []*aspgen.Stmt {
+			return append([]*aspgen.Stmt{f2}, r(E(Call("reduce", IdE("f2"), E(v))))...)
+		}},
 		{"len", "list", func(v, _ *aspgen.Val) []*aspgen.Stmt { return r(E(Call("len", E(v)))) }},
 		{"in", "list", func(v, lit *aspgen.Val) []*aspgen.Stmt {
 			x := aspgen.IntE(1)
@@ -88,7 +94,9 @@ func apps() []app {
 		{"in", "dict", func(v, _ *aspgen.Val) []*aspgen.Stmt { return r(E(aspgen.Str("k"), Bin("in", v))) }},
 		{"dict-eq", "dict", func(v, lit *aspgen.Val) []*aspgen.Stmt { return r(E(v, Bin("==", lit))) }},
 		{"index", "dict", func(v, _ *aspgen.Val) []*aspgen.Stmt { return r(E(aspgen.Index(v, aspgen.StrE("k")))) }},
-		{"get", "dict", func(v, _ *aspgen.Val) []*aspgen.Stmt { return r(E(aspgen.Method(v, "get", aspgen.StrE("zz"), aspgen.IntE(7)))) }},
+		{"get", "dict", func(v, _ *aspgen.Val) []*aspgen.Stmt {
+			return r(E(aspgen.Method(v, "get", aspgen.StrE("zz"), aspgen.IntE(7))))
+		}},
 		{"keys", "dict", func(v, _ *aspgen.Val) []*aspgen.Stmt { return r(E(aspgen.Method(v, "keys"))) }},
 		{"values", "dict", func(v, _ *aspgen.Val) []*aspgen.Stmt { return r(E(aspgen.Method(v, "values"))) }},
 		{"items", "dict", func(v, _ *aspgen.Val) []*aspgen.Stmt { return r(E(aspgen.Method(v, "items"))) }},
